@@ -180,3 +180,31 @@ def expand_locals(ctx, func, c, depth=0):
                 return expand_locals(ctx, func, canon(init[-1]), depth + 1)
         return c
     return tuple(expand_locals(ctx, func, x, depth + 1) if isinstance(x, tuple) else x for x in c)
+
+
+def binding_source(func, var_id):
+    """For a structured binding `auto [a, b] = f(...)`: (canonical initialiser, position) of variable var_id."""
+    d = func.unit.by_id.get(var_id)
+    if d is None or d.get("kind") != "BindingDecl":
+        return None
+    dd = d.get("_p")
+    if dd is None or dd.get("kind") != "DecompositionDecl":
+        return None
+    binds = [c for c in inner(dd) if c.get("kind") == "BindingDecl"]
+    init = [c for c in inner(dd) if c.get("kind") and c.get("kind") != "BindingDecl"]
+    pos = [i for i, b in enumerate(binds) if b.get("id") == var_id]
+    if not init or not pos:
+        return None
+    return canon(init[0]), pos[0], dd
+
+
+def assignments_to(func, var_id):
+    """AST nodes `v = expr` (not the declaration) assigning local variable var_id anywhere in func (lambdas included)."""
+    out = []
+    for x in walk(func.outer.body):
+        if x.get("kind") == "BinaryOperator" and x.get("opcode") == "=":
+            l, r = children(x)
+            lc = canon(l, refs=False)
+            if lc[0] == "var" and lc[1] == var_id:
+                out.append((x, r))
+    return out
